@@ -4,25 +4,13 @@
    time. *)
 From Coq Require Import List ZArith Lia Bool Arith.
 From FV Require Import ListLemmas ListLemmas2 SrcFragments.
-From FV Require StoreP StorePInv StoreB StoreBInv StoreBProps.
+From FV Require StoreP StorePInv StoreB StoreBInv StoreBProps Lens.
 Import ListNotations.
 Open Scope Z_scope.
 
-Definition zl {A} (l : list A) : Z := Z.of_nat (length l).
-
-Definition lensP (s : StoreP.store) : lens :=
-  {| n_items := zl (StoreP.items s); n_ready_items := 0;
-     n_reservations_put := zl (StoreP.putres s); n_reservations_get := zl (StoreP.getres s);
-     n_reserved_events := zl (StoreP.getres s);
-     n_reserve_put_queue := zl (StoreP.putq s); n_reserve_get_queue := zl (StoreP.getq s);
-     capacity := Z.of_nat (StoreP.cap s) |}.
-
-Definition lensB (s : StoreB.store) : lens :=
-  {| n_items := zl (StoreB.transit s); n_ready_items := zl (StoreB.ready s);
-     n_reservations_put := zl (StoreB.putres s); n_reservations_get := zl (StoreB.getres s);
-     n_reserved_events := zl (StoreB.getres s);
-     n_reserve_put_queue := zl (StoreB.putq s); n_reserve_get_queue := zl (StoreB.getq s);
-     capacity := Z.of_nat (StoreB.cap s) |}.
+Notation zl := Lens.zl.
+Notation lensP := Lens.lensP.
+Notation lensB := Lens.lensB.
 
 Lemma ltb_nat_Z a b : (a <? b)%nat = (Z.of_nat a <? Z.of_nat b).
 Proof. destruct (Nat.ltb_spec a b); destruct (Z.ltb_spec (Z.of_nat a) (Z.of_nat b)); auto; lia. Qed.
